@@ -5,8 +5,8 @@
 
    Clean = TRUE keeps the cache away from the three shapes of the known findings
    (known_findings.jsonl, the KF-C16 entries): no withdrawal of a record announced earlier in the same
-   response, a complete reload onto a non-empty table uses a new session id, no route whose origin
-   AS follows from the "local AS" rule.  Clean = FALSE generates everything. *)
+   response, a complete reload uses a new session id when the client (as modelled) still holds
+   records of the cache, no route whose origin AS follows from the "local AS" rule.  Clean = FALSE generates everything. *)
 EXTENDS Rpki, RpkiDom, Json
 
 CONSTANTS MaxSteps, Clean
@@ -23,7 +23,8 @@ PickPool == LET a == RandomElement(AllRecords)
                 c == RandomElement(AllRecords)
                 d == RandomElement(Records6)
                 e == RandomElement(Records4)
-            IN {a, b, c, d, e}
+            IN {a, b, c, d, e} \cup (IF Clean THEN {} ELSE {RandomElement({Rec("10.1.0.0/16", 16, LocalAS),
+                                                                             Rec("2001:db8::/32", 48, LocalAS)})})
 
 GenInit == /\ Init
            /\ hist = <<>>
@@ -49,7 +50,7 @@ GEnable(c) == /\ EnableRpki(c, QEnable(ms[c])) /\ Log([ev |-> "EnableRpki", c |-
 
 GResp(c) == /\ CanResp(c)
             /\ \E sid \in {IF Head(ps[c].cq) # "reset" THEN ps[c].psid
-                            ELSE IF Clean /\ (ps[c].hi \cup tbl[c]) # {} /\ ps[c].psid # 0
+                            ELSE IF Clean /\ tbl[c] # {} /\ ps[c].psid # 0
                                  THEN CHOOSE s \in Sids : s # ps[c].psid
                             ELSE RandomElement(Sids)} :
                   /\ rsid' = [rsid EXCEPT ![c] = sid]
@@ -75,7 +76,9 @@ GCacheReset(c) == /\ IdleConn(c) /\ (IF ps[c].cq = <<>> THEN TRUE ELSE Head(ps[c
                   /\ CacheReset(c, QSoftReset(ms[c])) /\ Log([ev |-> "CacheReset", c |-> c]) /\ Keep
 GError(c) == /\ ErrorReport(c) /\ Log([ev |-> "ErrorReport", c |-> c]) /\ Keep
 GInject == /\ \E c \in Caches : ms[c].cfg
-           /\ UNCHANGED vars /\ Log([ev |-> "Inject", rt |-> RandomElement(RouteNames)]) /\ Keep
+           /\ UNCHANGED vars
+           /\ Log([ev |-> "Inject", rt |-> IF ~Clean /\ Dice(3) THEN RandomElement(E2ELocalRule) ELSE RandomElement(RouteNames)])
+           /\ Keep
 
 Busy(c) == ms[c].cfg /\ (ps[c].phase = "resp" \/ ps[c].cq # <<>>)
 
